@@ -71,11 +71,13 @@ def total_descriptor(e):
                         if isinstance(x, LoopVar) and x.loop is loop:
                             it = strip_refs(x.iter)
             if it is not None and _is_contents_iter(it):
-                conds = []
+                kinds = frozenset()
                 for op, term, guards, stmt in n.terms:
-                    for f in guards:
-                        conds.append((f.test, f.truth))
-                kinds = kinds_of_filter(conds)
+                    k = kinds_of_filter([(f.test, f.truth) for f in guards])
+                    if k is None:
+                        kinds = None
+                        break
+                    kinds = kinds | k
                 api = any(isinstance(x, ast.Call) and isinstance(x.func, ast.Attribute) and x.func.attr in ('convert_from', 'convert')
                           for t in n.terms for x in deep_walk(t[1]))
                 return kinds, api, it
@@ -85,9 +87,12 @@ def total_descriptor(e):
 def _is_contents_iter(it):
     if is_items_of_contents(it):
         return True
-    return isinstance(it, ast.Attribute) and it.attr == 'contents' or \
-        (isinstance(it, ast.Call) and isinstance(it.func, ast.Attribute) and it.func.attr in ('keys', 'values') and
-         is_attr(it.func.value, 'contents'))
+    if isinstance(it, ast.Call) and isinstance(it.func, ast.Attribute) and it.func.attr in ('items', 'keys', 'values'):
+        r = it.func.value
+        if isinstance(r, Ref) and r.name.endswith('.contents'):
+            return True         # a contents dict that was stored as a whole in this function
+        return is_attr(r, 'contents')
+    return isinstance(it, ast.Attribute) and it.attr == 'contents'
 
 
 def run(ctx):
